@@ -82,7 +82,7 @@ def run_c19(tier, seed, write_evidence, only=None):
     if not build_tvdump():
         log("tvdump did not build")
         return 2
-    items = corpus_mod.corpus(os.path.join(work, "snips"))
+    items = corpus_mod.corpus(os.path.join(work, "snips"), seed)
     if only:
         items = [i for i in items if any(o in i[0] for o in only)]
     cap = 150 if tier == "quick" else 900
